@@ -282,5 +282,19 @@ PROPS["C12"] = dict(
                  "TOML: null values are never generated in the gated search (known finding F12: silently dropped); integers within int64"],
 )
 
+PROPS["C13"] = dict(
+    pkg="c13",
+    subs=[
+        dict(name="schema", test="TestSchema", quick=1500, thorough=60000, shards=16),
+    ],
+    technique="rapid-generated composed schemas and instances; differential against an own JSON Schema validator for the keyword subset, itself cross-checked per case by python jsonschema (Draft202012Validator) when available",
+    level_text="exploration: schemas composed to depth 2-3 from type (single/list), enum, const, numeric and string bounds, multipleOf, pattern, properties, required, additionalProperties, patternProperties, min/maxProperties, items, min/maxItems, uniqueItems, contains, allOf/anyOf/oneOf/not, $defs/$ref; 8 instances per schema biased to the schemas' constants; a verdict counts only when the Go validator and python jsonschema agree.",
+    level_note="trusted: the ~300-line Go validator (validator.go) and python jsonschema 4.26 as its cross-check; a disagreement between the two is my bug and the case is skipped (counted), never reported",
+    rule="schema accepted by jsonschema.Extract (else counted as rejected at import, which the property allows): for each instance, inst & CUE validates as concrete <=> instance valid per the oracle; and the JSON Schema generated back from that CUE must not reject an instance the oracle accepts (Generate is documented as best-effort/permissive, so only this direction is checked). Non-trivial = schema has >= 2 keywords of which >= 1 combinator or object keyword, and the instance set contains both a valid and an invalid instance.",
+    assumptions=["integral floats (1.0) are not generated: the importer distinguishes int/float where JSON Schema does not (documented in the vendored suite's skip list, finding F13)",
+                 "if/then/else is not generated in the registered tier (known finding F29 family); VERIF_TIER_MAX=1 enables it",
+                 "type lists [integer, number] and required+additionalProperties:false without properties are excluded (known findings F18, F29)"],
+)
+
 NOT_APPLICABLE = {}
 HOOK_COMMITS = []
